@@ -662,8 +662,20 @@ def run_history(case, res):
 def main():
     job = json.load(sys.stdin)
     cfg = job.get("cfg", {})
+    try:  # a primitive stuck in C code (bignum `**`) cannot be interrupted by SIGALRM: bound the CPU time
+        lim = int(cfg.get("cpu_seconds", 900))
+        resource.setrlimit(resource.RLIMIT_CPU, (lim, lim + 30))
+    except (ValueError, OSError):
+        pass
     results = []
+    prog = None
+    if cfg.get("workdir"):
+        os.makedirs(cfg["workdir"], exist_ok=True)
+        prog = os.path.join(cfg["workdir"], f"progress_{cfg.get('tag', 'w')}.txt")
     for case in job["cases"]:
+        if prog:
+            with open(prog, "w") as f:  # which case is running (diagnosis of a stuck worker)
+                f.write(case["id"] + "\n")
         results.append(run_case(case, cfg))
     if cfg.get("search", True):
         cexec.finish(results, cfg)
